@@ -1,6 +1,6 @@
 (* C06 - rescaling redistributes checkpointed state completely and exclusively. Statements only. *)
 From Coq Require Import List NArith Sorting.Permutation Sorting.Sorted.
-From RV Require Import Model.AssignRanges Proofs.C06_Assign.
+From RV Require Import Model.AssignRanges Model.Rescale Proofs.C06_Assign Proofs.C06_Rescale.
 Import ListNotations.
 Open Scope N_scope.
 
@@ -41,6 +41,59 @@ Print Assumptions assign_complete_and_exclusive.
 (* non-vacuity: a permuted instance *)
 Example assign_instance : Permutation [(2,4);(0,2)] (kg_ranges 4 2) /\ assign_ranges (kg_ranges 4 3) [(2,4);(0,2)] = [[1];[0];[0]].
 Proof. split; [apply perm_swap|reflexivity]. Qed.
+
+(* rescale_exact, the full statement ("each new operator sees, for every prefix of keys it owns, exactly what the old
+   owner's database showed", Proofs/C06_Rescale.v sees_old_state) is FALSE of the faithful model of the repaired code:
+   a permutation of the two old ranges, a new operator and an owned prefix where the old owner's entry is not read.
+   The witness is in the class recompacted_shared_table (two different files with meeting key ranges in one level
+   >= 1 of the composite) and outside the clean inputs; replayed on the implementation it is the known finding D22
+   (corpus/rescale/d22_recompacted_shared_table.json). *)
+Theorem rescale_exact_refuted :
+  exists count n recorded i p,
+    Permutation (map fst recorded) (kg_ranges count 2) /\
+    ~ sees_old_state count n recorded i p /\
+    class_witness count n recorded i = true /\ forallb doc_clean recorded = false.
+Proof. exact rescale_exact_refuted_lemma. Qed.
+Print Assumptions rescale_exact_refuted.
+
+(* rescale_exact_partial: for ALL documents, handle orders and ranges, the database a new operator opens from its
+   handles holds exactly the tables of those checkpoints (multiset equality: complete and exclusive at the level of
+   files), its memtable holds exactly the OWNED entries of their WALs, in order, and nothing foreign; every replayed
+   entry is numbered above every table, and the write counter continues above every loaded table, so that later writes
+   win every merge by sequence number.  Together with assign_exact (the handles are exactly the overlapping old
+   checkpoints) this is the part of rescale_exact that holds for every input.
+   MISSING for the full statement on clean inputs: that the level search of the faithful read path (select_level:
+   binary search + forward scan) returns every table holding the prefix when the tables of a level have pairwise
+   non-meeting key ranges and are sorted by start key (the composite of clean documents after the D21 repair), and
+   that per-key newest-sequence-number merging then equals the old owner's read.  Both are checked on every run by
+   the correspondence (code 22: faithful model vs implementation; codes 100/101: implementation vs the map of the
+   handler's own writes) but not proved. *)
+Theorem rescale_exact_partial : forall sorted own d rest st,
+  restore sorted own (d :: rest) = Some st ->
+  Permutation (concat (s_levels st)) (flat_map tables_of (d :: rest)) /\
+  map payload (s_mem st) = rev (map payload (filter (fun e => key_in own (e_key e)) (concat (flat_map d_wals (d :: rest))))) /\
+  (forall e, In e (s_mem st) -> key_in own (e_key e) = true) /\
+  (forall e t, In e (s_mem st) -> In t (concat (s_levels st)) -> t_endseq t < e_seq e) /\
+  (forall t, In t (concat (s_levels st)) -> t_endseq t <= s_seq st).
+Proof. exact restore_spec. Qed.
+Print Assumptions rescale_exact_partial.
+
+(* non-vacuity / samples: a clean scale-in with permuted acknowledgements reads everything (after the D21 repair) *)
+Example rescale_clean_sample :
+  match restore_new true 2 1 d21_recorded 0 with
+  | Some st => scan_prefix st [0;0] = [(kA1, 11); (kA2, 12)] /\ scan_prefix st [0;1] = [(kB1, 21); (kB2, 22)]
+  | None => False
+  end.
+Proof. exact d21_sorted_ok. Qed.
+
+(* history: before 4be9a8c (D21) even clean inputs failed: levels concatenated in acknowledgement order *)
+Lemma rescale_failed_before_d21_fix :
+  Permutation (map fst d21_recorded) (kg_ranges 2 2) /\ forallb doc_clean d21_recorded = true /\
+  match restore_new false 2 1 d21_recorded 0, restore false (0, 1) [docA] with
+  | Some st, Some stA => scan_prefix stA [0;0] = [(kA1, 11); (kA2, 12)] /\ scan_prefix st [0;0] = []
+  | _, _ => False
+  end.
+Proof. exact d21_unsorted_refuted. Qed.
 
 (* history: the scan before 35e5e8b failed the statement (D20) *)
 Lemma assign_exact_failed_before_fix :
